@@ -9,7 +9,7 @@ import coregen as cg
 import fnmlgen as fg
 
 PROP = 'C14'
-LEAN_TARGETS = ['MorphKgc.Props.C14', 'MorphKgc.Props.C14b']
+LEAN_TARGETS = ['MorphKgc.Props.C14', 'MorphKgc.Props.C14b', 'MorphKgc.Props.C14Now']
 GEN_KEYS = ['fnml', 'canon', 'null']
 M = 'MorphKgc.Props.C14'
 MB = 'MorphKgc.Props.C14b'
@@ -22,6 +22,8 @@ THEOREMS = [{'name': f'Props.C14.{n}', 'module': M} for n in [
     'C14_builtin_concat', 'C14_builtin_trim', 'C14_builtin_reverse', 'C14_builtin_index_of', 'C14_builtin_array_get',
     'C14_builtin_array_slice', 'C14_builtin_if_cast', 'C14_builtin_if', 'C14_builtin_escape', 'C14_builtin_to_string',
     'C14_builtin_case', 'C14_builtin_hash', 'C14_builtin_round', 'C14_F2_hash_iri', 'C14_F7_upper_url']]
+# hypothesis-free theorems of the repaired shapes the translator reads from /repo now (Props/C14Now.lean)
+THEOREMS += [{'name': f'Props.C14.{n}', 'module': 'MorphKgc.Props.C14Now'} for n in ['C14_current_order', 'C14_apply_current', 'C14_current_assign', 'C14_current_lang_termtype', 'C14_F4_current', 'C14_F2_current']]
 RULE = ('(I11) execute_fnml on a frame vs Model.Fnml.executeFnml: execution trees of depth 0-3 over built-ins and 19 seeded UDFs (results: str, '
         'None, NaN, NA token, list, tuple, empty list, list with None, int, float, bool, exception), arguments constant / reference / template / '
         'nested, the function table passed to the model as facts obtained by calling the Python function objects; row lists compared in order. '
